@@ -201,6 +201,19 @@ def plane_invariant_rule(F, rep):
 SHRINKING = ("clear", "pop", "truncate", "remove", "drain", "retain", "retain_mut", "split_off", "swap_remove", "resize", "resize_with", "dedup", "dedup_by", "dedup_by_key", "take")
 
 
+def mut_ref_of(a):
+    """name of the local an argument `&mut local` refers to"""
+    while isinstance(a, dict) and a.get("k") in ("DropTemps", "Paren"):
+        a = a.get("e")
+    if isinstance(a, dict) and a.get("k") == "AddrOf" and a.get("mut"):
+        t = a.get("e")
+        while isinstance(t, dict) and t.get("k") in ("DropTemps", "Paren"):
+            t = t.get("e")
+        if isinstance(t, dict) and t.get("k") == "Path" and t.get("res") == "local":
+            return t.get("name")
+    return None
+
+
 def nonempty_grid_rule(F, rep):
     """R19.8: Canvas::move_to clamps a point into the grid and then reads `self.content[y]` - with `y = 0` when the grid has no row, so a canvas without rows panics on the
     first cursor movement (recognize_information_item_name runs on every scanned text). The audited bounds arguments of the canvas sites start from a grid with at least
@@ -245,8 +258,8 @@ def nonempty_grid_rule(F, rep):
             calls = find_hir(h["body"], lambda x: x.get("k") == "MethodCall" and on_local(x))
             shrink = sorted({c["method"] for c, _ in calls if c.get("method") in SHRINKING})
             tested = [c for c, ps in calls if c.get("method") in ("is_empty", "len") and any(q.get("k") in ("If", "Match") for q in ps if isinstance(q, dict))]
-            moved = [c for c, _ in find_hir(h["body"], lambda x: x.get("k") == "Call" and any(
-                strip(a).get("k") == "AddrOf" and strip(a).get("mut") and strip(strip(a).get("e", {})).get("name") == loc for a in x.get("args", [])))]
+            moved = [c for c, _ in find_hir(h["body"], lambda x: x.get("k") == "Call" and not str(x.get("callee") or "").endswith("::into_iter") and any(
+                mut_ref_of(a) == loc for a in x.get("args", [])))]
             top_push = [c for c, ps in calls if c.get("method") in ("push", "insert") and not any(
                 isinstance(q, dict) and q.get("k") in ("If", "Match", "Loop", "Closure") for q in ps)]
             if starts_nonempty and not shrink and not moved:
